@@ -49,9 +49,10 @@ def _prep(crate):
                 txt = extract.cut_items(ex['file'], ex['items'])
                 open(os.path.join(dst, ex['to']), 'w').write('// GENERATED from %s -- verbatim items\n' % ex['file'] + txt)
     # path dependencies on /repo are written with the placeholder @REPO@
-    ct = os.path.join(dst, 'Cargo.toml')
-    s = open(ct).read().replace('@REPO@', REPO)
-    open(ct, 'w').write(s)
+    for f in ('Cargo.toml', os.path.join('src', 'lib.rs')):
+        ct = os.path.join(dst, f)
+        s = open(ct).read().replace('@REPO@', REPO)
+        open(ct, 'w').write(s)
     return dst
 
 
@@ -141,7 +142,9 @@ def _cex(setname, crate, h, crate_dir):
     for var, expr in rp.get('env', {}).items():
         # expr: "hex:t[..n]" | "int:n"
         kind, e = expr.split(':', 1)
-        if kind == 'hex':
+        if kind == 'lit':
+            env[var] = e
+        elif kind == 'hex':
             m = re.match(r'(\w+)\[\.\.(\w+)\]', e)
             if m:
                 data = vals[m.group(1)][:vals[m.group(2)]]
